@@ -221,7 +221,7 @@ def build_unit(u, tier, extra_defs=(), tag='', trace=False):
         cb += ['--trace']
     res['backend'] = {'sat': 'cbmc built-in SAT (minisat2/cadical default)', 'cvc5': 'cvc5 (SMT2)', 'z3': 'z3 (SMT2)', 'cadical': 'cadical', 'kissat': 'kissat'}.get(backend, backend)
     res['checker_cmd'] = ' '.join(gi[:-2] + ['a.gb', 'b.gb']) + ' ; ' + ' '.join(['cbmc', 'b.gb'] + cb[2:])
-    timeout = tier_val(u, 'timeout', tier, 600 if tier == 'quick' else 3600)
+    timeout = tier_val(u, 'timeout', tier, 1500 if tier == 'quick' else 7200)
     outj = os.path.join(bdir, 'cbmc.json')
     with open(outj, 'wb') as fo:
         rc, err, dt = run(cb, timeout, out=fo)
